@@ -89,7 +89,10 @@ site('qbe.c', 'dataitem', 'error', 'initializer is not a constant expression',
      T('expr', '(int *)&(static int){ h_v } == 0', gcc=True, skip=('*',)), n=4)
 site('qbe.c', 'dataitem', 'fatal', 'not a address expr', T('decl', 'static int x_ = -h_v;'), T('decl', 'static int x_ = *ip_;', pre=PQ))
 site('qbe.c', 'emitclass', 'fatal', 'type has no QBE representation', J('internal', 'classes are computed for scalars and aggregates only'))
-for cond in ('cur->expr->kind==EXPRCONST', 'cur->expr->kind==EXPRSTRING', 'cur->expr->type->prop&PROPINT', 'init->expr->kind==EXPRCONST', 'offset<=d->type->size'):
+site('qbe.c', 'emitdata', 'error', 'initializer is not a constant expression',
+     T('decl', 'static struct { int a_ : 3; } x_ = { h_v };', note='regression (fixed 987b1f6): was an assertion failure'),
+     T('decl', 'static union { int x_ : 5; int y_ : 10; } u_ = { h_v = 123 };'), T('bdecl', 'static struct { int a_; unsigned b_ : 7; } x_ = { 1, h_l };'))
+for cond in ('cur->expr->kind==EXPRSTRING', 'cur->expr->type->prop&PROPINT', 'init->expr->kind==EXPRCONST', 'offset<=d->type->size'):
     site('qbe.c', 'emitdata', 'assert', cond, J('internal', 'invariants of the initializer list built by init.c (see finding C10-scalar-excess-initializer for one that can fail)'))
 site('qbe.c', 'emitinst', 'assert', 'inst->kind<LEN(instname)', J('internal', 'instruction table'))
 site('qbe.c', 'emitjump', 'assert', '0', J('internal', 'jump kinds are exhaustive'))
